@@ -462,8 +462,8 @@ func (a *Act) enterLoop(li *loopInfo, st *State) *State {
 	} else if a.hasMods {
 		li.items = append(li.items, a.funcMods...)
 	}
-	// objects allocated earlier by this very function may be written without declaration
-	li.items = append(li.items, a.root().freshAllocs...)
+	// objects allocated by this very function may be written without declaration: they
+	// are covered by the "allocated after function entry" alternative of the frame rule
 	// 3. invariants hold on entry
 	if li.spec != nil && !a.dry {
 		env := a.headerEnv(li, entryPhis, st)
@@ -493,41 +493,43 @@ func (a *Act) enterLoop(li *loopInfo, st *State) *State {
 			continue
 		}
 		cur := a.vc.comp(st.mem, c, s)
-		// store-form havoc: only the items of this component (and anything allocated
-		// after loop entry, whose initial contents are arbitrary anyway) may differ.
+		// Frame of the loop: objects that existed when the function was entered and are not
+		// listed in the modifies items keep their value; listed objects and objects allocated
+		// by this function are arbitrary (the invariants have to say what is needed about them).
 		all := false
 		var refs []string
+		seenRef := map[string]bool{}
 		for _, e := range li.items {
 			if e.matches(c) {
 				if e.All {
 					all = true
-				} else {
+				} else if !seenRef[e.Ref] {
+					seenRef[e.Ref] = true
 					refs = append(refs, e.Ref)
 				}
 			}
 		}
-		if all || strings.HasPrefix(c, "G:") || strings.HasPrefix(c, "ghost:") {
+		if all || !strings.HasPrefix(string(s), "(Array Int ") {
 			nst.mem.m[c] = a.vc.declareHeap("hv_"+c, s, nst.mem.m["alloc"])
 			continue
 		}
-		if len(refs) == 0 {
-			// nothing declared modifiable: unchanged for pre-existing objects
-			// (stores must prove freshness); keep current value
-			nst.mem.m[c] = cur
-			continue
-		}
-		elemSort := Sort(strings.TrimSuffix(strings.TrimPrefix(string(s), "(Array Int "), ")"))
-		t := cur
-		seenRef := map[string]bool{}
+		hv := a.vc.declareHeap("hv_"+c, s, nst.mem.m["alloc"])
+		conds := []string{app("<=", "r!f", a.root().allocE)}
 		for _, r := range refs {
-			if seenRef[r] {
-				continue
-			}
-			seenRef[r] = true
-			fv := a.vc.declareHeap("hv_"+c, elemSort, nst.mem.m["alloc"])
-			t = sto(t, r, fv)
+			conds = append(conds, not(app("=", "r!f", r)))
 		}
-		nst.mem.m[c] = a.vc.define("hv_"+c, s, t)
+		if strings.HasPrefix(string(s), "(Array Int (Array ") {
+			// nested heap: state the frame element by element (no equalities between rows,
+			// which would make the solver reason by array extensionality)
+			ks := "Int"
+			if strings.HasPrefix(string(s), "(Array Int (Array Str") {
+				ks = "Str"
+			}
+			a.vc.lines = append(a.vc.lines, fmt.Sprintf("(assert (forall ((r!f Int) (j!f %s)) (! (=> %s (= (select (select %s r!f) j!f) (select (select %s r!f) j!f))) :pattern ((select (select %s r!f) j!f)))))", ks, and(conds...), hv, cur, hv))
+		} else {
+			a.vc.lines = append(a.vc.lines, fmt.Sprintf("(assert (forall ((r!f Int)) (! (=> %s (= (select %s r!f) (select %s r!f))) :pattern ((select %s r!f)))))", and(conds...), hv, cur, hv))
+		}
+		nst.mem.m[c] = hv
 	}
 	// fresh phis
 	li.phiHavoc = map[*ssa.Phi]Val{}
@@ -761,7 +763,7 @@ func zeroTerm(s Sort, vc *VC) string {
 	case SortStr:
 		return vc.strConst("")
 	case SortFlt:
-		return "flt-zero"
+		return "0.0"
 	}
 	if strings.HasPrefix(string(s), "(Array Int ") {
 		el := Sort(strings.TrimSuffix(strings.TrimPrefix(string(s), "(Array Int "), ")"))
